@@ -448,6 +448,7 @@ class CSSStyleSheet(cssutils.stylesheets.StyleSheet):
         If `encoding` is None removes charsetrule if present resulting in
         default encoding of utf-8.
         """
+        self._checkReadonly()
         try:
             rule = self._cssRules[0]
         except IndexError:
